@@ -266,7 +266,7 @@ def gen_call(rng):
             opts[name] = True
     if rng.random() < 0.25:
         opts["tzinfos"] = rng.choice(["map", "callable", "map_none", "map2",
-                                      "callable2"])
+                                      "callable2", "proxy", "proxy2"])
     if rng.random() < 0.5:
         opts["default"] = [rng.choice([1, 1999, 2003, 2024, 9999]),
                            rng.randrange(1, 13), rng.choice([1, 28, 29, 30, 31]),
@@ -487,6 +487,10 @@ def make_tzinfos(kind):
     # said must never answer for another
     table2 = {"BRST": -7200, "EST": "EST5EDT,M3.2.0,M11.1.0", "XYZ": 0,
               "CET": tz.tzoffset("CET", 3600), "ABCDEF": None}
+    if kind in ("proxy", "proxy2"):
+        # a read-only mapping (any Mapping will do for tzinfos)
+        import types
+        return types.MappingProxyType(table if kind == "proxy" else table2)
     if kind == "map2":
         return table2
     if kind == "callable2":
@@ -727,7 +731,19 @@ class Env(object):
         else:
             p = self.parsers[int(via[-1])]
             fn = lambda: p.parse(x, **kw)
-        return outcome_of(fn)
+        tzi = kw.get("tzinfos")
+        before = sorted((k, repr(v)) for k, v in tzi.items()) \
+            if hasattr(tzi, "items") else None
+        out = outcome_of(fn)
+        if before is not None:
+            after = sorted((k, repr(v)) for k, v in tzi.items())
+            if after != before:
+                # "leaves no state behind": the caller's mapping is the
+                # caller's
+                self.ctx.violation("C14.argument_mutated",
+                                   dict(call=short(call), before=before,
+                                        after=after))
+        return out
 
     def snapshot(self):
         # (the int<->str digit limit is recorded, NOT restored: like the
